@@ -44,6 +44,20 @@ thread_local! {
     static TAP: RefCell<Option<Arc<dyn Fn(usize, TapEvent) + Send + Sync>>> = const { RefCell::new(None) };
     static JITTER: RefCell<Option<Duration>> = const { RefCell::new(None) };
     static INLINE_RESOLVE: std::cell::Cell<bool> = const { std::cell::Cell::new(false) };
+    static NAMED_POINT: RefCell<Option<Arc<dyn Fn(&'static str)>>> = const { RefCell::new(None) };
+}
+
+/// H8: named points in sibling crates (anemo-tower) at which a harness running on the current
+/// thread may stall the caller, standing in for a preemption at that place.
+pub fn set_named_point_hook(hook: Option<Arc<dyn Fn(&'static str)>>) {
+    NAMED_POINT.with(|f| *f.borrow_mut() = hook);
+}
+
+pub fn named_point(tag: &'static str) {
+    let hook = NAMED_POINT.with(|f| f.borrow().clone());
+    if let Some(hook) = hook {
+        hook(tag);
+    }
 }
 
 /// H7: resolve literal socket addresses inline (no `spawn_blocking`) for dials made on the
